@@ -388,6 +388,36 @@ def identity_cases():
                 good = False
         priv.append({"variant": label, "dead": good})
     cases.append({"id": "private", "kind": "weak", "rows": priv})
+
+    # the signal of a Context (resource_added) and a signal declared by a Context subclass: the same bound signal before the context
+    # is entered, while it is open and after it has been closed; a listener that subscribed through the object obtained earlier
+    # receives what is dispatched through a later access
+    ctxrows = []
+
+    async def ctxmain():
+        from asphalt.core import Context
+
+        class Ctx2(Context):
+            extra = Signal(EvA_)
+
+        for label, make_ctx in (("Context", Context), ("subclass", Ctx2)):
+            ctx = make_ctx()
+            before = ctx.resource_added
+            extra_before = getattr(ctx, "extra", None)
+            async with ctx:
+                during = ctx.resource_added
+            after = ctx.resource_added
+            good = before is during and during is after and getattr(ctx, "extra", None) is extra_before
+            got = []
+            if extra_before is not None:
+                async with extra_before.stream_events() as st:
+                    ctx.extra.dispatch(EvA_(7))
+                    with anyio.move_on_after(1):
+                        got.append((await st.__anext__()).n)
+                good = good and got == [7]
+            ctxrows.append({"variant": label, "dead": good})
+    vclock.run(ctxmain, backend="asyncio", seed=0)
+    cases.append({"id": "context", "kind": "weak", "rows": ctxrows})
     return cases
 
 
